@@ -55,12 +55,15 @@ type scenResult struct {
 func runScenario(t *testing.T, sc Scenario) scenResult {
 	start := time.Now()
 	res := scenResult{Name: sc.Name, Bound: -1}
-	deadline := start.Add(sc.Budget)
+	// the budget is CPU time of this (single-threaded) worker, so that a loaded machine does
+	// not turn into "bound not completed"; a generous wall-clock cap remains as a safety net
+	cpuDeadline := rt.ProcessCPU() + sc.Budget
+	deadline := start.Add(20 * sc.Budget)
 	if sc.Cfg.Horizon == 0 {
 		sc.Cfg.Horizon = 24 * time.Hour
 	}
 	for b := 0; b <= sc.MaxB; b++ {
-		x := &rt.Explorer{T: t, Cfg: sc.Cfg, Body: sc.Body, Check: sc.Check, Bound: b, Deadline: deadline}
+		x := &rt.Explorer{T: t, Cfg: sc.Cfg, Body: sc.Body, Check: sc.Check, Bound: b, Deadline: deadline, CPUDeadline: cpuDeadline}
 		x.Run()
 		res.Execs += x.Execs
 		res.Unmodelled += x.Unmodelled
@@ -91,7 +94,7 @@ func runScenario(t *testing.T, sc Scenario) scenResult {
 			res.Exhausted = true
 			break
 		}
-		if time.Now().After(deadline) {
+		if time.Now().After(deadline) || rt.ProcessCPU() > cpuDeadline {
 			break
 		}
 	}
